@@ -46,6 +46,7 @@ func (a *SolverStats) Add(b SolverStats) {
 }
 
 type Solver struct {
+	Kind      string // "z3" (default) or "cvc5"
 	TimeoutMS int
 	cmd       *exec.Cmd
 	in        io.WriteCloser
@@ -61,14 +62,18 @@ type Solver struct {
 	NoFallback bool
 }
 
-func NewSolver(timeoutMS int) *Solver {
-	s := &Solver{TimeoutMS: timeoutMS}
+func NewSolver(kind string, timeoutMS int) *Solver {
+	s := &Solver{Kind: kind, TimeoutMS: timeoutMS}
 	s.start()
 	return s
 }
 
 func (s *Solver) start() {
-	s.cmd = exec.Command("z3", "-in")
+	if s.Kind == "cvc5" {
+		s.cmd = exec.Command("cvc5", "--lang=smt2", "--incremental", "--produce-models", fmt.Sprintf("--tlimit-per=%d", s.TimeoutMS))
+	} else {
+		s.cmd = exec.Command("z3", "-in")
+	}
 	in, _ := s.cmd.StdinPipe()
 	out, _ := s.cmd.StdoutPipe()
 	s.cmd.Stderr = os.Stderr
@@ -90,8 +95,12 @@ func (s *Solver) start() {
 			}
 		}
 	}(s.out, s.lines)
-	s.send(fmt.Sprintf("(set-option :timeout %d)", s.TimeoutMS))
-	s.send("(set-option :produce-models true)")
+	if s.Kind == "cvc5" {
+		s.send("(set-logic ALL)")
+	} else {
+		s.send(fmt.Sprintf("(set-option :timeout %d)", s.TimeoutMS))
+		s.send("(set-option :produce-models true)")
+	}
 }
 
 func (s *Solver) Close() {
@@ -443,17 +452,18 @@ func (s *Solver) fallback(extra *Term, vars []*Term) (SatResult, map[string]uint
 	f.WriteString(sb.String())
 	f.Close()
 	tl := s.TimeoutMS * 3
-	for _, alt := range [][]string{
-		{"z3-new", fmt.Sprintf("-T:%d", tl/1000+1), f.Name()},
+	alts := [][]string{
 		{"cvc5", "--lang=smt2", "--produce-models", fmt.Sprintf("--tlimit=%d", tl), f.Name()},
+		{"z3-new", fmt.Sprintf("-T:%d", tl/1000+1), f.Name()},
 		{"cvc5", "--lang=smt2", "--produce-models", "--solve-bv-as-int=sum", fmt.Sprintf("--tlimit=%d", tl), f.Name()},
-	} {
+	}
+	if s.Kind == "cvc5" {
+		alts[0] = []string{"z3", fmt.Sprintf("-T:%d", tl/1000+1), f.Name()}
+	}
+	for _, alt := range alts {
 		out, _ := exec.Command(alt[0], alt[1:]...).Output()
-		txt := string(out)
-		if strings.Contains(txt, "(error") && !strings.Contains(txt, "model is not available") {
-			continue
-		}
-		lines := strings.SplitN(strings.TrimSpace(txt), "\n", 2)
+		txt := strings.TrimSpace(string(out))
+		lines := strings.SplitN(txt, "\n", 2)
 		switch strings.TrimSpace(lines[0]) {
 		case "unsat":
 			return Unsat, nil
@@ -461,7 +471,7 @@ func (s *Solver) fallback(extra *Term, vars []*Term) (SatResult, map[string]uint
 			if len(vars) == 0 {
 				return Sat, nil
 			}
-			if len(lines) > 1 {
+			if len(lines) > 1 && !strings.Contains(lines[1], "(error") {
 				if m := parseModel(lines[1], vars); m != nil {
 					return Sat, m
 				}
